@@ -88,6 +88,18 @@ CHECKS = {
     design_ref="DESIGN.md §5 C18",
     note="Trusted: TLC, driver parsing of the text channels (regular expressions) and Python's JSON parser. JSON has no file selection and is compared with the all-files result.",
     technique="TLA+ channel-agreement specification (Trace_Chan, stateful severity map) + real rva stdout in every mode recorded as traces + TLC trace validation"),
+ "C13": dict(
+    category="model_checking",
+    text="TLC enumerates Gen_Rewrite exhaustively: all compositions of at most 2 (quick) / 4 (thorough) rewrites out of ten dimensions (separators, indentation, comments, blank lines, mnemonic case, numeric/ABI/fp register names, decimal/hex/binary/character immediates, label placement, omitted zero offset, pseudo-instruction vs official expansion), applied at every site or every other site of four base programs (clean and violating). Original and rewritten text are analysed by the real pipeline; Trace_Rel validates each pair: the parsed instruction sequences are equal node by node (pseudo-expansions by ISA!Equivalent on the value grid), and the multisets of (kind, instruction index, operand) of all parse errors, CFG errors and lints are equal.",
+    design_ref="DESIGN.md §5 C13",
+    note="Trusted: TLC, ISA.tla, the renderer lib/absprog.py (its output is re-checked per pair for meaning preservation on the parsed nodes), harness projection.",
+    technique="TLA+ relational trace specification (Trace_Rel: same meaning, same verdicts) + TLC-enumerated rewrite compositions rendered and replayed into the real pipeline"),
+ "C14": dict(
+    category="model_checking",
+    text="TLC enumerates Gen_Rename: identity, every transposition and every rotation of the temporary class t0-t6 and of the saved class s0-s11 (each register of a class is moved), six label renaming schemes (suffix, leading underscore, digits, long names, cyclic permutation of the existing names), at most two of the three non-trivial at once, on four base programs. Trace_Rel validates each pair: instruction sequences equal after renaming, and the multiset of (kind, instruction index, operand) of the renamed program equals the original one with registers mapped through the permutation.",
+    design_ref="DESIGN.md §5 C14",
+    note="Trusted: TLC, renderer lib/absprog.py, harness projection. quick tier: 1500 renamings sampled by seed from the enumerated set; thorough: all.",
+    technique="TLA+ relational trace specification (Trace_Rel: equivariance) + TLC-enumerated permutations/renamings replayed into the real pipeline"),
 }
 PENDING = "check not built yet in this round (planned, see DESIGN.md §5); not claimed until its check is green on the unchanged tree"
 m = {
